@@ -37,6 +37,7 @@ type c14Case struct {
 	Unbondings  []int   `json:"unbondings"`    // validator index per unbonding entry
 	Shared      []bool  `json:"shared"`        // another delegator undelegates at the same time (same completion slice)
 	Redelegs    []int   `json:"redelegations"` // source validator index per redelegation (dst = next)
+	SameTime    []bool  `json:"unbonding_same_time"` // entry i starts in the same block as entry i-1 (same completion time)
 	Rewards     bool    `json:"rewards"`
 	Target      string  `json:"target"`      // fresh | balance | delegation | unbonding | operator | migrated
 	SourceKind  string  `json:"source_kind"` // normal | nopubkey | ethkey | operator | migrated
@@ -51,12 +52,13 @@ type c14Case struct {
 func genC14(t *rapid.T) c14Case {
 	c := c14Case{Denoms: rapid.IntRange(0, 4).Draw(t, "denoms"), Rewards: rapid.Bool().Draw(t, "rewards")}
 	for i := 0; i < 3; i++ {
-		c.Delegations = append(c.Delegations, rapid.SampledFrom([]int64{0, 0, 500, 1234}).Draw(t, "del"))
+		c.Delegations = append(c.Delegations, rapid.SampledFrom([]int64{0, 500, 1234, 777}).Draw(t, "del"))
 	}
 	nu := rapid.IntRange(0, 3).Draw(t, "nunb")
 	for i := 0; i < nu; i++ {
 		c.Unbondings = append(c.Unbondings, rapid.IntRange(0, 2).Draw(t, "uv"))
 		c.Shared = append(c.Shared, rapid.Bool().Draw(t, "shared"))
+		c.SameTime = append(c.SameTime, rapid.Bool().Draw(t, "sameTime"))
 	}
 	nr := rapid.IntRange(0, 2).Draw(t, "nred")
 	for i := 0; i < nr; i++ {
@@ -241,7 +243,9 @@ func runC14(c c14Case, rec *ev.Recorder) *Failure {
 	}
 	hasStaking := false
 	for i, vi := range c.Unbondings {
-		ctx = ctx.WithBlockHeight(ctx.BlockHeight() + 1).WithBlockTime(ctx.BlockTime().Add(time.Duration(i+1) * time.Hour))
+		if i == 0 || i >= len(c.SameTime) || !c.SameTime[i] {
+			ctx = ctx.WithBlockHeight(ctx.BlockHeight() + 1).WithBlockTime(ctx.BlockTime().Add(time.Duration(i+1) * time.Hour))
+		}
 		if run(stakingtypes.NewMsgUndelegate(srcAcc.String(), vals[vi].String(), sim.FxCoin(int64(10+i)))) {
 			hasStaking = true
 		}
